@@ -135,7 +135,9 @@ def lganm_ivs(g, p, how=None):
     out = []
     for t in ts:
         r = g.random()
-        if r < 0.2:
+        if r < 0.03:
+            out.append([t, [g.choice([1e17, -1e17, 1e-17, 3e8]), g.choice([0, 1e-14, 1e-300, 1e12])]])     # extreme magnitudes
+        elif r < 0.2:
             out.append([t, g.choice([r2(g, -3, 3), g.randint(-3, 3)])])
         elif r < 0.35:
             out.append([t, [r2(g, -3, 3), 0]])
